@@ -221,9 +221,28 @@ type vStep struct {
 	executed  bool
 	result    string
 	never     bool
+	finishedSeq int
+}
+
+// vRunHolder selects the vRun a Start call belongs to when one prepared workflow is executed several times.
+type vRunHolder struct {
+	cur *vRun
+	byG map[int]*vRun
+}
+
+func verifAtomicPick(h *vRunHolder, gid int) *vRun {
+	if r, ok := h.byG[gid]; ok {
+		return r
+	}
+	return h.cur
+}
+
+func newRun() *vRun {
+	return &vRun{steps: map[string]*vStep{}, emitted: map[string]int{}, emittedV: map[string]any{}}
 }
 
 type vRunnable struct {
+	holder  *vRunHolder
 	run     *vRun
 	id      string
 	life    step.Lifecycle[step.LifecycleStageWithSchema]
@@ -235,10 +254,14 @@ func (r *vRunnable) Lifecycle(input map[string]any) (step.Lifecycle[step.Lifecyc
 }
 func (r *vRunnable) RunSchema() map[string]*schema.PropertySchema { return nil }
 func (r *vRunnable) Start(input map[string]any, runID string, h step.StageChangeHandler) (step.RunningStep, error) {
-	s := &vStep{run: r.run, id: r.id, h: h, done: make(chan struct{}), finished: make(chan struct{}),
+	run := r.run
+	if r.holder != nil {
+		run = verifAtomicPick(r.holder, verifrt.Gid())
+	}
+	s := &vStep{run: run, id: r.id, h: h, done: make(chan struct{}), finished: make(chan struct{}),
 		inputs: map[string]chan map[string]any{"deploy": make(chan map[string]any, 1), "enabling": make(chan map[string]any, 1), "starting": make(chan map[string]any, 1)},
 		given:  map[string]bool{}, state: step.RunningStepStateStarting, stage: "deploy", outcome: r.outcome}
-	verifAtomicRegister(r.run, s)
+	verifAtomicRegister(run, s)
 	go s.life()
 	return s, nil
 }
@@ -338,9 +361,12 @@ func (s *vStep) change(prev, out string, data any, next string, st step.RunningS
 	}
 }
 
+func verifAtomicFinished(s *vStep) { s.finishedSeq = s.run.seq }
+
 func (s *vStep) complete(stage, out string, data any) {
 	verifAtomicSet(s, stage, step.RunningStepStateFinished, "")
 	verifAtomicEmit(s, stage, out, data)
+	verifAtomicFinished(s)
 	s.h.OnStepComplete(s, stage, &out, &data, &s.wg)
 }
 
@@ -503,7 +529,11 @@ func verifPluginBase() step.Lifecycle[step.LifecycleStage] {
 }
 
 func verifPrepare(t tWorkflow) (*executableWorkflow, *vRun) {
-	run := &vRun{steps: map[string]*vStep{}, emitted: map[string]int{}, emittedV: map[string]any{}}
+	return verifPrepareH(t, nil)
+}
+
+func verifPrepareH(t tWorkflow, holder *vRunHolder) (*executableWorkflow, *vRun) {
+	run := newRun()
 	e := &executor{logger: vLogger{}, config: &config.Config{}}
 	dag := dgraph.New[*DAGItem]()
 	_, err := dag.AddNode(WorkflowInputKey, &DAGItem{Kind: DAGItemKindInput})
@@ -519,7 +549,7 @@ func verifPrepare(t tWorkflow) (*executableWorkflow, *vRun) {
 			data[k] = v
 		}
 		wf.Steps[ts.id] = data
-		rn := &vRunnable{run: run, id: ts.id, life: life, outcome: ts.outcome}
+		rn := &vRunnable{holder: holder, run: run, id: ts.id, life: life, outcome: ts.outcome}
 		runnables[ts.id] = rn
 		lifecycles[ts.id] = life
 		runData[ts.id] = map[string]any{}
